@@ -28,6 +28,15 @@ def count (os : List Opts) (agree : Opts → Bool) : Nat × Nat × Nat × Nat ×
 def reportNF (snap : Snap) := count WalkTest.allOpts (WalkTest.agree snap)
 def reportF (snap : Snap) := count (WalkFollowTest.allOpts true) (WalkFollowTest.agree snap)
 
+/-- all mismatches inside `OrdOk` (any `contents_first`, depth window, filter): must be 0 after both repairs -/
+def insideOrd (os : List Opts) (agree : Opts → Bool) : Nat := (os.filter (fun o => ord o && !agree o)).length
+
+#eval ([WalkTest.snap1, WalkTest.snap2, WalkTest.snap3, WalkTest.snap4].map
+  (fun sn => insideOrd WalkTest.allOpts (WalkTest.agree sn)),
+  [WalkFollowTest.snapSib, WalkFollowTest.snapUp, WalkFollowTest.snapCyc, WalkFollowTest.snapDia,
+   WalkFollowTest.snapOrd, WalkFollowTest.snapRootLink, WalkFollowTest.snapMissing, WalkFollowTest.snapDeep].map
+  (fun sn => insideOrd (WalkFollowTest.allOpts true) (WalkFollowTest.agree sn)))
+
 -- follow = false
 #eval reportNF WalkTest.snap1
 #eval reportNF WalkTest.snap2
